@@ -54,27 +54,27 @@ func must[T any](v T, err error) T {
 }
 
 var scalars = []types.Value{
-	types.True,                                    // 0  hash 1
-	types.Long(1),                                 // 1  hash 1
-	must(types.ParseDecimal("0.0001")),            // 2  hash 1
-	must(types.ParseDuration("1ms")),              // 3  hash 1
-	types.NewDatetimeFromMillis(1),                // 4  hash 1
-	types.False,                                   // 5
-	types.Long(0),                                 // 6
-	types.Long(2),                                 // 7
-	types.Long(3),                                 // 8
-	types.Long(4),                                 // 9
-	types.String("a"),                             // 10
-	types.String(""),                              // 11
-	types.NewEntityUID("A", "bc"),                 // 12
-	types.NewEntityUID("Ab", "c"),                 // 13
-	types.NewEntityUID("User", "a"),               // 14
-	must(types.ParseIPAddr("10.0.0.1")),           // 15
-	must(types.ParseIPAddr("10.0.0.0/8")),         // 16
-	types.String("1"),                             // 17
-	must(types.ParseDecimal("1.0")),               // 18
-	types.NewDatetimeFromMillis(0),                // 19
-	must(types.ParseDuration("0ms")),              // 20
+	types.True,                            // 0  hash 1
+	types.Long(1),                         // 1  hash 1
+	must(types.ParseDecimal("0.0001")),    // 2  hash 1
+	must(types.ParseDuration("1ms")),      // 3  hash 1
+	types.NewDatetimeFromMillis(1),        // 4  hash 1
+	types.False,                           // 5
+	types.Long(0),                         // 6
+	types.Long(2),                         // 7
+	types.Long(3),                         // 8
+	types.Long(4),                         // 9
+	types.String("a"),                     // 10
+	types.String(""),                      // 11
+	types.NewEntityUID("A", "bc"),         // 12
+	types.NewEntityUID("Ab", "c"),         // 13
+	types.NewEntityUID("User", "a"),       // 14
+	must(types.ParseIPAddr("10.0.0.1")),   // 15
+	must(types.ParseIPAddr("10.0.0.0/8")), // 16
+	types.String("1"),                     // 17
+	must(types.ParseDecimal("1.0")),       // 18
+	types.NewDatetimeFromMillis(0),        // 19
+	must(types.ParseDuration("0ms")),      // 20
 }
 
 const family = 8 // scalars[0..4] collide; 5..7 neighbours
@@ -649,7 +649,9 @@ func (p Prop) Run(r *core.Run) *core.Violation {
 	}
 	r.CountN("mutations_after_use", uint64(h.muts))
 	if r.T.Pos()%29 == 0 || r.Tracing {
-		r.Sample(map[string]any{"history": hist})
+		r.Quiet(func() {
+			r.Sample(map[string]any{"history": hist})
+		})
 	}
 	return nil
 }
